@@ -23,7 +23,9 @@ unary_unsized_ok = ["Box<{}>", "std::sync::Arc<{}>", "std::rc::Rc<{}>", "&'stati
                     "std::sync::Weak<{}>", "std::rc::Weak<{}>", "std::cell::Cell<{}>", "std::cell::UnsafeCell<{}>", "std::sync::Mutex<{}>", "std::sync::RwLock<{}>",
                     "std::mem::ManuallyDrop<{}>", "&'static mut {}", "*mut {}"]
 binary = ["Result<{}, {}>", "({}, {})", "std::collections::BTreeMap<{}, {}>", "std::collections::HashMap<{}, {}, std::hash::RandomState>",
-          "std::collections::HashSet<{}, std::hash::BuildHasherDefault<{}>>"]
+          "std::collections::HashSet<{}, std::hash::BuildHasherDefault<{}>>",
+          # the SAME map / set type under another hasher type: every generic argument must reach the id, also the last one
+          "std::collections::HashMap<{}, {}, std::hash::BuildHasherDefault<std::hash::DefaultHasher>>"]
 types = []
 seen = set()
 def add(t):
@@ -80,6 +82,11 @@ base16 = ["u8"] * 16
 add("(" + ", ".join(base16) + ")")
 for i in range(16):
     t = list(base16); t[i] = "u16"; add("(" + ", ".join(t) + ")")
+for l in ["u8", "String", "Vec<u8>"]:
+    add("std::collections::HashSet<%s, std::hash::RandomState>" % l)
+    add("std::collections::HashSet<%s, std::hash::BuildHasherDefault<std::hash::DefaultHasher>>" % l)
+    add("Vec<std::collections::HashMap<%s, u8, std::hash::RandomState>>" % l)
+    add("Vec<std::collections::HashMap<%s, u8, std::hash::BuildHasherDefault<std::hash::DefaultHasher>>>" % l)
 # nesting vs flat
 for x in ["((u8, u16), u32)", "(u8, (u16, u32))", "(u8, u16, u32)", "[(u8, u8); 2]", "([u8; 2], [u8; 2])", "[[u8; 2]; 3]", "[[u8; 3]; 2]",
           "Vec<Option<Vec<u8>>>", "Option<Vec<Option<u8>>>", "Result<Result<u8, u16>, u32>", "Result<u8, Result<u16, u32>>"]:
